@@ -3,6 +3,8 @@ package main
 import (
 	"bytes"
 	"fmt"
+	"net/http"
+	"net/http/httptest"
 	"os"
 	"strings"
 	"time"
@@ -935,6 +937,50 @@ func runClose(sc scenario, work string) (res result) {
 		filesEmpty = fmt.Sprintf("(Some %v)", len(dirLeft) == 0)
 	}
 	res.coq = p.caseCoq(pre, true, filesEmpty)
+	// ---- oracle-only probes (outside the model, which has no failing reader): URIs a client learnt from a playlist
+	// fetched BEFORE Close - completed parts, listed segments, the init - requested AFTER Close returned. Each must
+	// return (any status) and must not panic (round 10: C07-m14, deferred r.Close() on a nil reader once Close has
+	// removed the files from Directory) ----
+	if sc.PostProbes {
+		var late []areq
+		for k := range snap.Streams {
+			st := snap.Streams[k]
+			if sc.Cfg.Variant == "LL" {
+				for id := int64(st.NextPartID) - 1; id >= 0 && id >= int64(st.NextPartID)-4; id-- {
+					late = append(late, areq{Kind: "path", Stream: k, PKind: "part", ID: uint64(id)})
+				}
+			}
+			for id := int64(st.NextSegmentID) - 1; id >= 0 && id >= int64(st.NextSegmentID)-3; id-- {
+				late = append(late, areq{Kind: "path", Stream: k, PKind: "seg", ID: uint64(id)})
+			}
+		}
+		for _, rq := range late {
+			target := p.d.target(rq)
+			type lateRes struct {
+				status int
+				pan    string
+			}
+			ch := make(chan lateRes, 1)
+			go func() {
+				w := &respWriter{rec: httptest.NewRecorder()}
+				defer func() {
+					if e := recover(); e != nil {
+						ch <- lateRes{pan: fmt.Sprint(e)}
+					}
+				}()
+				p.d.m.Handle(w, httptest.NewRequest(http.MethodGet, target, nil))
+				ch <- lateRes{status: w.rec.Code}
+			}()
+			select {
+			case lr := <-ch:
+				if lr.pan != "" {
+					res.fail(sc, "C07:later-request-panics:"+rq.PKind, fmt.Sprintf("GET %s after Close returned panicked inside Muxer.Handle: %s", target, lr.pan))
+				}
+			case <-time.After(20 * time.Second):
+				res.fail(sc, "C07:later-request-hangs:"+rq.PKind, fmt.Sprintf("GET %s after Close returned did not return within 20 s", target))
+			}
+		}
+	}
 	// ---- property oracle (from the property text) ----
 	inside := false
 	for i := range p.out {
